@@ -568,8 +568,7 @@ def sel_dlabels(slide):
 
 def sel_fills(slide):
     out = []
-    if hasattr(slide, "background"):
-        out.append(K("background.fill", lambda: slide.background.fill))
+    out += sel_bgfills(slide)
     for sh in all_shapes(slide):
         if hasattr(sh, "fill") and not _safe(lambda: sh.shape_type.name) in ("GROUP",):
             out.append(K("shape.fill", lambda sh=sh: sh.fill))
@@ -581,6 +580,33 @@ def sel_fills(slide):
             out.append(K(type(s).__name__ + ".marker.format.fill", lambda s=s: s.marker.format.fill))
     for sn, pts, i in _points(slide):
         out.append(K(sn + ".point.format.fill", lambda pts=pts, i=i: pts[i].format.fill))
+    return out
+
+
+def _bg_owners(slide):
+    """(route, thunk -> object having .background) for the slide, its layout and its master"""
+    out = []
+    if hasattr(slide, "background"):
+        out.append(("slide", lambda: slide))
+    lay = _safe(lambda: slide.slide_layout)
+    if lay is not None:
+        out.append(("slide_layout", lambda: lay))
+        mst = _safe(lambda: lay.slide_master)
+        if mst is not None:
+            out.append(("slide_master", lambda: mst))
+    return out
+
+
+def sel_bgfills(slide):
+    # resolving .background.fill is itself an operation (it establishes p:bg/p:bgPr)
+    return [K(r + ".background.fill", lambda th=th: th().background.fill) for r, th in _bg_owners(slide)]
+
+
+def sel_bgcolors(slide):
+    out = []
+    for r, th in sel_bgfills(slide):
+        out.append(K(r + ".fore_color", lambda th=th: th().fore_color))
+        out.append(K(r + ".back_color", lambda th=th: th().back_color))
     return out
 
 
@@ -618,7 +644,7 @@ def sel_gstops(slide):
     out = []
     for r, th in sel_fills(slide):
         # only fills that already are gradients (reading .type does not touch the tree)
-        fl = _safe(th) if r in ("shape.fill", "cell.fill", "background.fill") else None
+        fl = _safe(th) if r in ("shape.fill", "cell.fill") else None
         if fl is not None and _safe(lambda: fl.type.name) == "GRADIENT":
             n = _safe(lambda: len(fl.gradient_stops), 0) or 0
             for i in range(min(n, 3)):
@@ -650,7 +676,7 @@ def _kind(slide, kind):
 
 SELECTORS = {
     "shape": sel_shapes, "text_frame": sel_text_frames, "paragraph": sel_paragraphs, "run": sel_runs, "font": sel_fonts,
-    "fill": sel_fills, "line": sel_lines, "color": sel_colors,
+    "fill": sel_fills, "line": sel_lines, "color": sel_colors, "bgfill": sel_bgfills, "bgcolor": sel_bgcolors,
     "chart": lambda s: [K("chart", lambda ch=ch: ch) for ch in _charts(s)],
     "table": lambda s: [K("table", lambda t=t: t) for t in _tables(s)],
     "cell": lambda s: [K("cell", lambda c=c: c) for c in _cells(s)],
@@ -716,6 +742,9 @@ def SETTERS():
         ("color", "brightness", lambda r: g_float(r, -1.0, 1.0)),
         ("fill", "gradient_angle", lambda r: g_float(r, -360.0, 720.0)), ("fill", "pattern", lambda r: E(r, ed.MSO_PATTERN_TYPE, 0.15)),
         ("gstop", "position", lambda r: g_float(r, 0.0, 1.0)),
+        ("bgfill", "gradient_angle", lambda r: g_float(r, -360.0, 720.0)), ("bgfill", "pattern", lambda r: E(r, ed.MSO_PATTERN_TYPE, 0.15)),
+        ("bgcolor", "rgb", g_rgb), ("bgcolor", "theme_color", lambda r: E(r, ed.MSO_THEME_COLOR, 0.15)),
+        ("bgcolor", "brightness", lambda r: g_float(r, -1.0, 1.0)),
         ("line", "width", g_len), ("line", "dash_style", lambda r: E(r, ed.MSO_LINE_DASH_STYLE, 0.15)),
         ("hyperlink", "address", lambda r: r.choice(["http://example.com/a?b=1&c=2", "", None, "mailto:x@y.z", "file:///c:/x y.txt", 5, "http://é.com/\u4e2d"])),
         ("cell", "text", g_str), ("cell", "margin_left", g_len), ("cell", "margin_top", g_len), ("cell", "margin_right", g_len),
@@ -756,6 +785,9 @@ def CALLS():
     return [
         ("fill", "solid", lambda r: []), ("fill", "background", lambda r: []), ("fill", "gradient", lambda r: []),
         ("fill", "patterned", lambda r: []),
+        ("bgfill", "solid", lambda r: []), ("bgfill", "background", lambda r: []), ("bgfill", "gradient", lambda r: []),
+        ("bgfill", "patterned", lambda r: []), ("bgfill", "__type__", lambda r: []),
+        ("slide", "__get_fmb__", lambda r: []),
         ("text_frame", "add_paragraph", lambda r: []), ("text_frame", "clear", lambda r: []),
         ("paragraph", "add_run", lambda r: []), ("paragraph", "add_line_break", lambda r: []), ("paragraph", "clear", lambda r: []),
         ("cell", "split", lambda r: []),
@@ -901,7 +933,15 @@ def gen_op(rng, nslides_hint):
         if _OOD:
             op["ood"] = True      # a constructor-style argument outside its documented domain
         return op
-    if r < 0.42:
+    if r < 0.36:
+        # background operations on the slide, its layout and its master
+        pool = [t for t in CALLS_T if t[0] == "bgfill"] + [t for t in SETTERS_T if t[0] in ("bgfill", "bgcolor")] + \
+               [t for t in SETTERS_T if t[1] == "follow_master_background"] + [t for t in CALLS_T if t[1] == "__get_fmb__"]
+        t = rng.choice(pool)
+        if any(t is c for c in CALLS_T):
+            return {"kind": "call", "s": s, "k": k, "sel": t[0], "meth": t[1], "args": t[2](rng)}
+        return {"kind": "set", "s": s, "k": k, "sel": t[0], "attr": t[1], "val": t[2](rng)}
+    if r < 0.46:
         sel, meth, g = rng.choice(CALLS_T)
         return {"kind": "call", "s": s, "k": k, "sel": sel, "meth": meth, "args": g(rng)}
     sel, attr, g = rng.choice(SETTERS_T)
@@ -989,6 +1029,10 @@ def exec_op(prs, op):
             obj.chart_title.text_frame.text = a[0]
         elif m == "__font_size__":
             obj.font.size = a[0]
+        elif m == "__type__":
+            obj.type                     # reading the fill type through a freshly resolved .background.fill
+        elif m == "__get_fmb__":
+            obj.follow_master_background
         elif m == "__notes__":
             obj.notes_slide.notes_text_frame.text = a[0]
         else:
@@ -1172,9 +1216,29 @@ def corpus_decks():
     return out
 
 
+GENERATED = "generated:bgref"
+BGREF = ('<p:bg xmlns:p="http://schemas.openxmlformats.org/presentationml/2006/main" '
+         'xmlns:a="http://schemas.openxmlformats.org/drawingml/2006/main">'
+         '<p:bgRef idx="1001"><a:schemeClr val="bg1"/></p:bgRef></p:bg>')
+
+
 def open_deck(rel):
+    """a corpus deck, or the generated start deck: the default template with three slides, where every
+    slide and every layout carries a theme-reference background p:bg/p:bgRef as PowerPoint writes it
+    (first child of p:cSld); the template's master has one already"""
     from pptx import Presentation
-    return Presentation(os.path.join(REPO, rel))
+    if rel != GENERATED:
+        return Presentation(os.path.join(REPO, rel))
+    from pptx.oxml import parse_xml
+    prs = Presentation()
+    for i in (0, 1, 6):
+        prs.slides.add_slide(prs.slide_layouts[i])
+    owners = [sl for sl in prs.slides] + [ly for ly in prs.slide_layouts]
+    for o in owners:
+        cSld = o._element.cSld
+        if cSld.find("{http://schemas.openxmlformats.org/presentationml/2006/main}bg") is None:
+            cSld.insert(0, parse_xml(BGREF))
+    return prs
 
 
 def new_errors(before, after):
@@ -1627,7 +1691,9 @@ def jobs_for(tier, seed):
         nseq, nops = 12000, 10
     others = decks[1:]
     for i in range(nseq):
-        if tier == "quick":
+        if i % 8 == 5:
+            deck = GENERATED
+        elif tier == "quick":
             deck = default if i % 3 == 0 else others[(i - i // 3 - 1) % len(others)]
         else:
             deck = default if i % 4 == 0 else others[i % len(others)]
@@ -1802,7 +1868,8 @@ def run(ck, tier, rng):
     nseq = len([r for r in results if "ops" in r])
     return ck.finish(
         rule="random public-API operation sequences (%d sequences x 10 or 20 operations, generated against the live state so that most operations have a target; "
-             "default template every 3rd/4th sequence, every corpus deck round-robin); after EVERY operation every XML part is serialised and validated "
+             "default template every 3rd/4th sequence, every corpus deck round-robin, every 8th sequence a generated start deck whose slides and layouts carry p:bg/p:bgRef; "
+             "background operations on slide, layout and master have their own share of the alphabet); after EVERY operation every XML part is serialised and validated "
              "(libxml2 oracle; Coq validator for correspondence), and the saved package at the end of every sequence; non-trivial = the operation had a target "
              "(was executed or rejected)" % nseq,
         trusted_base=TB, assumptions=ASSUME,
